@@ -41,11 +41,23 @@ func findIntersection(seg0, seg1 segment) (int, Point, Point) {
 	sqrEpsilon := 0. // was 1e-3 earlier
 	E := Point{p1.X - p0.X, p1.Y - p0.Y}
 	kross := d0.X*d1.Y - d0.Y*d1.X
-	sqrKross := kross * kross
 	sqrLen0 := lengthToOrigin(d0)
 	sqrLen1 := lengthToOrigin(d1)
 
-	if sqrKross > sqrEpsilon*sqrLen0*sqrLen1 {
+	// exceeds reports whether kross*kross > sqrEpsilon*a*b. With the present
+	// sqrEpsilon of zero that is kross != 0, and the products are not formed:
+	// for segments longer than 1e154 the lengths overflow, 0*Inf is NaN, every
+	// comparison with NaN fails, and two segments that cross were reported as
+	// parallel (below 1e-162 kross*kross underflows to zero, with the same
+	// result).
+	exceeds := func(kross, a, b float64) bool {
+		if sqrEpsilon == 0 {
+			return kross != 0
+		}
+		return kross*kross > sqrEpsilon*a*b
+	}
+
+	if exceeds(kross, sqrLen0, sqrLen1) {
 		// lines of the segments are not parallel
 		s := (E.X*d1.Y - E.Y*d1.X) / kross
 		if s < 0 || s > 1 {
@@ -67,8 +79,7 @@ func findIntersection(seg0, seg1 segment) (int, Point, Point) {
 	// lines of the segments are parallel
 	sqrLenE := lengthToOrigin(E)
 	kross = E.X*d0.Y - E.Y*d0.X
-	sqrKross = kross * kross
-	if sqrKross > sqrEpsilon*sqrLen0*sqrLenE {
+	if exceeds(kross, sqrLen0, sqrLenE) {
 		// lines of the segment are different
 		return 0, nanPoint, nanPoint
 	}
